@@ -280,6 +280,11 @@ def main(argv=None):
         "violations": 0 if rc == 0 else (len(new_viol) or 1),
         "verdict": verdict, "replay": replay_rel,
     }
+    if hasattr(mod, "evidence_extra"):
+        try:
+            ev["coverage"].update(mod.evidence_extra())
+        except Exception as e:                                  # noqa: BLE001
+            ev["coverage"]["evidence_extra_error"] = repr(e)
     evdir = os.environ.get("VERIF_EVIDENCE_DIR") or os.path.join(VERIF, "evidence")
     os.makedirs(evdir, exist_ok=True)
     with open(os.path.join(evdir, pid + ".json"), "w") as f:
